@@ -2,14 +2,47 @@
 """Regenerates MANIFEST.json from the table below (keeps it schema-valid at all times)."""
 import json, subprocess
 
-BUILT = {
+TEXT = {
  "C01": ("exploration", "model-based PBT: bounded-exhaustive one-step enumeration + proptest histories vs std Vec model",
          "Every (state<=bound, operation instance) is executed on the real vector and on a Vec model and the full post-state compared; beyond the bound seeded proptest histories over three vectors. Sound for violations it reports (replayable), complete only inside the bound.", "§4 C01"),
  "C02": ("exploration", "model-based PBT: exhaustive ranges x RangeBounds forms x next/next_back strings x replacement kinds + proptest histories vs Vec::drain/splice",
          "All ranges (valid, invalid, overflowing) in all nine RangeBounds forms, all consumption strings and replacement kinds from every small state, differential against Vec::drain/Vec::splice; random histories on larger vectors.", "§4 C02"),
  "C03": ("exploration", "stateful PBT with identity registry: ownership invariants after every step of generated histories",
          "Every element instance carries an id tracked by a registry (alive, cloned, dropped counters); after every generated step all visible ids are alive and unique and live-set equals reachable-set; at the end nothing is alive and nothing was dropped twice.", "§4 C03"),
+ "C04": ("exploration", "generated type-pair matrix: every checked entry point x offered/requested type pair, oracle = panic/None iff types differ, registry for the rejected value",
+         "All ordered pairs from a set of distinct element types incl. same-layout pairs are offered to / requested from every checked entry point in every small state; mismatch must panic or yield None with the vector unchanged, match must succeed.", "§4 C04"),
+ "C05": ("exploration", "PBT on instrumented backends: guard zones, poison, relocate-on-resize, quarantine; instrumented global allocator for Heap",
+         "The C01/C02/C08/C10 case space is re-run with memory monitors as the deciding oracle: out-of-bounds writes hit guard zones, writes through stale pointers hit quarantined blocks, reads of uninitialised/moved-out slots surface as poison/dead ids, backend lifecycle hooks check build/resize/release.", "§4 C05"),
+ "C06": ("fault_enumeration", "fault injection enumeration: every k-th user-code invocation (Drop/Clone/iterator next) panics; lying ExactSizeIterator; validity predicate + usability script",
+         "For every (state, operation instance) the fault-free run counts user-code invocations N, then N re-runs inject a panic at invocation k; afterwards the validity predicate (alive, intact, unique, guard zones) and a usability script must pass. Replacement iterators misreporting len by -2..=+2 are enumerated likewise.", "§4 C06"),
+ "C07": ("exploration", "PBT with mem::forget at every stage of removal handles and range iterators; validity predicate + prefix oracle",
+         "Every removal handle / drain / splice iterator is forgotten immediately or after every next/next_back prefix, or a yielded item is forgotten; prefix before the index must be unchanged, the vector valid, nothing duplicated or dropped twice; history continues afterwards.", "§4 C07"),
+ "C08": ("exploration", "model-based PBT: clone/clone_empty/clone_empty_in from every state and backend pair, registry clone counters, follow-up operation independence",
+         "Every state x every Cloneable constraint set x every backend flavour (fixed-capacity ones also full) is cloned; oracle compares type/layout/len/payloads, per-element clone counters (exactly once), storage separation and independence under one follow-up operation on either vector.", "§4 C08"),
+ "C09": ("exploration", "PBT over lazy-clone chains: source kind x depth x copies x consumption kinds with registry clone/drop counters",
+         "All cloneable source kinds, chain depths 1..3, 0..2 LazyClone copies and all consumption kinds are enumerated; the registry proves no clone happens on creation/copy/drop and exactly one clone of the original per consumption.", "§4 C09"),
+ "C10": ("exploration", "PBT of capacity calls: exhaustive (len,capacity) x argument grid incl. overflow boundaries, no-op detection via allocator/backend event counters, amortisation runs",
+         "Every (len, capacity) state x reserve/reserve_exact/shrink_* with small and boundary arguments; oracle: inequalities of the statement, no-op (same capacity, same pointer, zero allocator events) when sufficient, panic when len+n overflows, exact result on Heap, logarithmic reallocation count over 2^k pushes.", "§4 C10"),
+ "C11": ("exploration", "generated SIZE/N grids for Stack/StackN: capacity formula, construction panic, differential vs Heap at the capacity boundary, zero allocator events",
+         "Macro-generated grids of Stack<SIZE>/StackN<N,SIZE> around multiples of the element size; capacity must equal the formula, operations ending at cap-1/cap/cap+1 must equal the Heap run or panic leaving contents unchanged, the allocator window must stay empty.", "§4 C11"),
+ "C12": ("exploration", "generated placements: vector moved to every admissible offset in an aligned arena, address arithmetic oracle for byte/slice/spare views",
+         "Every (len, cap) state x layout x backend x placement offset; storage pointer alignment checked by integer arithmetic, byte/typed/spare views compared with base + len*size arithmetic, spare writes + set_len become the new tail.", "§4 C12"),
+ "C13": ("exploration", "PBT over handle kinds: every index, every writer view x reader view pair, every ordered swap pairing of typed/untyped handles",
+         "get/at/get_mut/at_mut at all indices 0..=len+1, writes through 8 mutable views read back through 8 views, AnyValueMut::swap for all 25 ordered handle-kind pairs; oracle: model payloads, typeid/size/bytes/address of each handle, only the two values exchanged.", "§4 C13"),
+ "C14": ("exploration", "exhaustive next/next_back strings with calls past exhaustion for every iterator kind, size_hint/len oracle, clone independence",
+         "All 2^n choice strings (plus calls after exhaustion) for iter, iter_mut, drain, splice and typed counterparts from every state and sub-range; before every call size_hint/len must equal the model's remaining count, items must come in model order, both ends stay None after exhaustion; clones of shared iterators advance independently.", "§4 C14"),
+ "C15": ("exploration", "generated probe programs compiled by rustc: auto-trait tables and constructor/method availability vs a rule-table oracle",
+         "Programs are generated over constraint set x backend x element class x derived type x {Send,Sync}; rustc's verdict (compiles / trait not satisfied) is compared with a rule table derived from the statement; every rejection has a control program.", "§4 C15"),
+ "C16": ("exploration", "generated probe programs (handle producer x conflict class, each with its control) judged by rustc's borrow checker",
+         "A two-level grammar generates programs that use a vector in conflict with a live handle; each must be rejected while its conflict-free control compiles; accepted-but-must-reject verdicts are confirmed solo.", "§4 C16"),
+ "C17": ("exploration", "model-based PBT: raw-parts round trips (1..3, with field-wise clone) interleaved with operations, registry + allocator event oracle",
+         "Every state x constraint set on Heap and Empty: into_raw_parts / RawParts::clone / from_raw_parts repeated and followed by every C01 operation; no registry or allocator event may happen across the round trip and all reported fields must match the vector.", "§4 C17"),
+ "C18": ("exploration", "PBT under an instrumented global allocator: layout validity/consistency log, per-vector allocation accounting, leak check, overflow-boundary requests",
+         "C01/C02/C10 cases and histories on heap vectors; the allocator wrapper validates every layout, matches realloc/dealloc layouts with the allocation's, checks one sufficiently large/aligned block per vector and none for zero-size storage, and an empty table at the end; boundary capacity requests must panic rather than reach the allocator.", "§4 C18"),
+ "C19": ("exploration", "feature-set differential: no-default-features build probes (no_std staticlib link test, unresolved Heap) + same generated histories on stack backends in both feature sets",
+         "A no_std staticlib probe must build without a global allocator iff alloc is absent from the crate graph; compile probes show the heap backend is gone; the C01/C02/C11 generated histories on stack backends must satisfy the model and produce identical digests in both feature sets.", "§4 C19"),
 }
+BUILT = set(open("/verif/.built").read().split())
 NOT_YET = {}
 ALL = ["C%02d" % i for i in range(1, 20)]
 
@@ -18,7 +51,7 @@ def main():
     for pid in ALL:
         if pid not in BUILT:
             continue
-        level, technique, text, ref = BUILT[pid]
+        level, technique, text, ref = TEXT[pid]
         checks.append({
             "property_id": pid,
             "quick_cmd": f"./check {pid} --tier quick",
